@@ -20,6 +20,7 @@ EXPLANATION = (
     "implies negated; (5) generichide — misc_generic_selectors is read only where generichide is false "
     "and only through difference(&exceptions); Engine::url_cosmetic_resources takes the flag from "
     "blocker.check_generic_hide on a request whose source is the page URL itself."
+    ' Later additions: rule hostnames are hashed lower-cased; generichide is false for unsupported schemes; the per-label loops of hostname_cosmetic_resources are never left by a `break` and use no truncating adapter; the wire slots of the per-host stores are positional and written unconditionally (C08.2).'
 )
 NOT_DECIDED = "The label / public-suffix arithmetic (which suffixes a hostname produces) — runtime values."
 
